@@ -442,7 +442,7 @@ ASSUMPTIONS = [
 EXPLANATION = "Counting and self-containedness of the three elimination blocks."
 MANIFEST = {
     "category": "proof",
-    "text": "The three elimination blocks of simplify() are extracted structurally and executed on enumerated equation lists with symbolic leaves and options (the alias block with the real nested functions and the real AliasRelation): the number of dropped equations equals the number of unknowns removed (a state goes with its derivative, constants are kept), only algebraic unknowns are eliminated by aliasing, and every eliminated symbol is passed to the substitute calls for equations, initial equations and delay arguments. A bounded replay checks unknowns - equations and residual construction on generated square models.",
+    "text": "The three elimination blocks of simplify() are extracted structurally and executed on enumerated equation lists with symbolic leaves and options (the alias block with the real nested functions and the real AliasRelation): the number of dropped equations equals the number of unknowns removed (a state goes with its derivative, constants are kept), only algebraic unknowns are eliminated by aliasing, and every eliminated symbol is passed to the substitute calls for equations, initial equations and delay arguments. A bounded replay checks unknowns - equations and residual construction on generated square models. C14's harness of the eliminable-variable loop is discharged here for self-containedness: no derivative symbol of an eliminated variable is left without a variable.",
     "note": "Enumerated equation lists; CasADi's substitute and Function construction assumed; a variable defined by two equations is eliminated once (real extract_assignment closure on the live dictionaries), no symbol is substituted twice.",
     "technique": "contract-based deductive verification: structural fragment extraction and symbolic execution of the elimination blocks with recording stubs, z3",
 }
